@@ -235,7 +235,8 @@ class HexCell(CellBase):
 
         # guard against division by zero only: adding VSMALL to the norm (an area) would shorten
         # the 'unit' normals by an amount that depends on the size of the cell
-        nnorms = np.maximum(np.linalg.norm(side_normals, axis=1), VSMALL)
+        # (the norm is an area: the guard, a length, is squared)
+        nnorms = np.maximum(np.linalg.norm(side_normals, axis=1), VSMALL**2)
         return side_normals / nnorms[:, np.newaxis]
 
     def get_inner_angles(self, i: int):
